@@ -9,7 +9,6 @@ import (
 	"io"
 	"net/http"
 	"net/http/httptest"
-	"net/textproto"
 	"strconv"
 	"strings"
 	"time"
@@ -450,10 +449,12 @@ func c05API(c *Ctx, msgs []string) {
 			ndata := 0
 			for i, f := range frames {
 				if flags[i]&0x80 != 0 {
-					tp := textproto.NewReader(bufioReader(append(append([]byte{}, f...), '\r', '\n')))
-					mh, _ := tp.ReadMIMEHeader()
-					for k, v := range mh {
-						hdr[strings.ToLower(k)] = v
+					// PROTOCOL-WEB: the trailer frame is an HTTP/1 header block with lower-case
+					// names; the reference client looks the names up as they are on the wire.
+					for _, ln := range strings.Split(string(f), "\r\n") {
+						if k, v, ok := strings.Cut(ln, ":"); ok {
+							hdr[k] = append(hdr[k], strings.TrimSpace(v))
+						}
 					}
 				} else {
 					ndata++
